@@ -4,7 +4,8 @@
 package tty
 
 // C18 harness: the REAL VgaTextConsole and VesaFbConsole over host memory, as consoles of the
-// common driver in c17_vt_trace_test.go.  No oracle here: the consoles are built through their
+// common driver in c17_vt_trace_test.go and of the hal leg (harness/hal/c18h_link_test.go); a
+// non-test overlay file for that reason.  No oracle here: the consoles are built through their
 // exported API (New..., DriverInit, SetLogo, SetFont; the two hardware seams are bound by the
 // overlay shim c18_console_shim.go) and what each cell SHOWS is recovered from memory:
 //   text mode   : the character / attribute pair of the cell;
@@ -17,12 +18,12 @@ package tty
 // with all four bytes, masked by the union of the colour component masks.
 
 import (
+	"fmt"
 	"image/color"
 	"io/ioutil"
 	"math/rand"
 	"strconv"
 	"syscall"
-	"testing"
 	"unsafe"
 
 	"github.com/ProjectSerenity/firefly/kernel/device/video/console"
@@ -41,16 +42,16 @@ var c18Arena []byte
 
 // c18Mem prepares host memory for a frame buffer of n bytes: page-aligned buffer filled from rng,
 // c18Guard pattern bytes directly before and after it.
-func c18Mem(t *testing.T, n int, rng *rand.Rand) (fb []byte, before, after []byte) {
+func c18Mem(n int, rng *rand.Rand) (fb []byte, before, after []byte) {
 	if c18Arena == nil {
 		var err error
 		c18Arena, err = syscall.Mmap(-1, 0, c18ArenaSize, syscall.PROT_READ|syscall.PROT_WRITE, syscall.MAP_ANON|syscall.MAP_PRIVATE)
 		if err != nil {
-			t.Fatal(err)
+			panic(err)
 		}
 	}
 	if c18Page+n+c18Guard > len(c18Arena) {
-		t.Fatalf("frame buffer of %d bytes does not fit the arena", n)
+		panic("frame buffer of " + strconv.Itoa(n) + " bytes does not fit the arena")
 	}
 	fb = c18Arena[c18Page : c18Page+n : c18Page+n]
 	before = c18Arena[c18Page-c18Guard : c18Page]
@@ -82,18 +83,18 @@ type c18Vga struct {
 	snapB, snapA  []byte
 }
 
-func newC18Vga(t *testing.T, w, h uint32, rng *rand.Rand) c17Screen {
+func newC18Vga(w, h uint32, rng *rand.Rand) c17Screen {
 	c := &c18Vga{w: w, h: h}
-	c.fb, c.before, c.after = c18Mem(t, int(w*h*2), rng)
+	c.fb, c.before, c.after = c18Mem(int(w*h*2), rng)
 	c.snapB, c.snapA = append([]byte(nil), c.before...), append([]byte(nil), c.after...)
 	c.VgaTextConsole = console.NewVgaTextConsole(w, h, 0xb8000)
 	var asked uintptr
 	console.VerifC18BindSeams(uintptr(unsafe.Pointer(&c.fb[0])), func(size uintptr) { asked = size })
 	if err := c.DriverInit(ioutil.Discard); err != nil {
-		t.Fatalf("vga DriverInit: %v", err.Message)
+		panic(fmt.Sprintf("vga DriverInit: %v", err.Message))
 	}
 	if asked != uintptr(len(c.fb)) {
-		t.Fatalf("vga console mapped %d bytes, harness provided %d", asked, len(c.fb))
+		panic(fmt.Sprintf("vga console mapped %d bytes, harness provided %d", asked, len(c.fb)))
 	}
 	return c
 }
@@ -211,7 +212,7 @@ type c18Fb struct {
 
 var c18Fonts = []string{"terminus8x16", "terminus10x18", "terminus14x28"}
 
-func newC18Fb(t *testing.T, w, h uint32, rng *rand.Rand) c17Screen {
+func newC18Fb(w, h uint32, rng *rand.Rand) c17Screen {
 	c := &c18Fb{w: w, h: h}
 	c.bpp = []uint32{8, 15, 16, 24, 32, 32}[rng.Intn(6)]
 	c.bytesPP = (c.bpp + 1) >> 3
@@ -243,22 +244,22 @@ func newC18Fb(t *testing.T, w, h uint32, rng *rand.Rand) c17Screen {
 	if fi == 3 {
 		c.f = c18Font9
 	} else if c.f = font.FindByName(c18Fonts[fi]); c.f == nil {
-		t.Fatalf("shipped font %s not found", c18Fonts[fi])
+		panic(fmt.Sprintf("shipped font %s not found", c18Fonts[fi]))
 	}
 	c.gl = c18GlyphsOf(c.f)
 	c.offY = []uint32{0, 0, 5, 13}[rng.Intn(4)]
 	c.pw = w*c.f.GlyphWidth + uint32(rng.Intn(int(c.f.GlyphWidth)))
 	c.ph = c.offY + h*c.f.GlyphHeight + uint32(rng.Intn(int(c.f.GlyphHeight)))
 	c.pitch = c.pw*c.bytesPP + []uint32{0, 0, 1, 3, 4, 7, 17}[rng.Intn(7)]
-	c.fb, c.before, c.after = c18Mem(t, int(c.ph*c.pitch), rng)
+	c.fb, c.before, c.after = c18Mem(int(c.ph*c.pitch), rng)
 	c.VesaFbConsole = console.NewVesaFbConsole(c.pw, c.ph, uint8(c.bpp), c.pitch, c.ci, 0xe0000000)
 	var asked uintptr
 	console.VerifC18BindSeams(uintptr(unsafe.Pointer(&c.fb[0])), func(size uintptr) { asked = size })
 	if err := c.DriverInit(ioutil.Discard); err != nil {
-		t.Fatalf("fb DriverInit: %v", err.Message)
+		panic(fmt.Sprintf("fb DriverInit: %v", err.Message))
 	}
 	if asked != uintptr(len(c.fb)) {
-		t.Fatalf("fb console mapped %d bytes, harness provided %d", asked, len(c.fb))
+		panic(fmt.Sprintf("fb console mapped %d bytes, harness provided %d", asked, len(c.fb)))
 	}
 	// the order hal uses: logo first (reserves the rows above the text), then the font
 	if c.offY > 0 {
@@ -272,7 +273,7 @@ func newC18Fb(t *testing.T, w, h uint32, rng *rand.Rand) c17Screen {
 	}
 	c.SetFont(c.f)
 	if cw, ch := c.Dimensions(console.Characters); cw != w || ch != h {
-		t.Fatalf("fb console of %dx%d pixels, font %s, logo %d has %dx%d cells, wanted %dx%d", c.pw, c.ph, c.f.Name, c.offY, cw, ch, w, h)
+		panic(fmt.Sprintf("fb console of %dx%d pixels, font %s, logo %d has %dx%d cells, wanted %dx%d", c.pw, c.ph, c.f.Name, c.offY, cw, ch, w, h))
 	}
 	// palette -> pixel value, lowest index first
 	c.idx = map[uint32]int{}
@@ -282,7 +283,7 @@ func newC18Fb(t *testing.T, w, h uint32, rng *rand.Rand) c17Screen {
 	}
 	for i := 0; i < 16; i++ {
 		if c.idx[c.pack(pal[i].(color.RGBA), uint8(i))] != i {
-			t.Fatalf("pixel format %+v does not tell palette entry %d from a lower one", *c.ci, i)
+			panic(fmt.Sprintf("pixel format %+v does not tell palette entry %d from a lower one", *c.ci, i))
 		}
 	}
 	c.snapB, c.snapA = append([]byte(nil), c.before...), append([]byte(nil), c.after...)
